@@ -118,6 +118,9 @@ def malformed_variants():
     out.append(("M6-edge-source-node-misspelt", "raises", m6, {}))
     out.append(("M7-output-variable-misspelt", "raises", m, dict(outputs={"o": "p1/rate/rr"})))
     out.append(("M8-output-node-misspelt", "raises", m, dict(outputs={"o": "px/rate/r"})))
+    out.append(("M7b-one-of-two-outputs-misspelt", "raises", m, dict(outputs={"o": "p2/rate/r", "o2": "p1/rate/rr"})))
+    out.append(("M8b-one-of-two-output-nodes-misspelt", "raises", m, dict(outputs={"o": "p2/rate/r", "o2": "px/rate/r"})))
+    out.append(("M4e-node-value-node-misspelt", "warns", m, dict(node_values={"px/rate/tau": 3.0})))
     m9 = json.loads(json.dumps(m))
     m9["ops"]["rate"]["vars"]["tau"] = ["output", 2.0]
     out.append(("M9-two-outputs-in-one-operator", "raises", m9, {}))
